@@ -41,6 +41,38 @@ func main() {
 	if *explain != "" {
 		os.Exit(doExplain(*explain, *repo))
 	}
+	if *out == "" {
+		*out = filepath.Join(*verif, "evidence")
+	}
+	if *prop == "all" {
+		// developer mode: load once, run every property (used by the seed matrix)
+		p, err := core.Load(*repo)
+		if err != nil {
+			fmt.Println("LOAD-ERROR", err)
+			os.Exit(1)
+		}
+		var ids []string
+		for id := range rules.Registry {
+			ids = append(ids, id)
+		}
+		sort.Strings(ids)
+		rc := 0
+		for _, id := range ids {
+			ctx, _ := core.NewCtx(p, id, *tier, 0, *out, filepath.Join(*verif, "known_findings.json"))
+			func() {
+				defer func() {
+					if r := recover(); r != nil {
+						ctx.Anchor("PANIC", fmt.Sprintf("checker panic: %v", r))
+					}
+				}()
+				rules.Registry[id](ctx)
+			}()
+			if ctx.Finish() != 0 {
+				rc = 1
+			}
+		}
+		os.Exit(rc)
+	}
 	rule, ok := rules.Registry[*prop]
 	if !ok {
 		fmt.Fprintf(os.Stderr, "unknown property %q\n", *prop)
